@@ -6,7 +6,7 @@ import subprocess
 
 from . import common as C
 
-ALPHABET = [" ", "\t", "\n", "'", '"', "$", "\\", "`", ";", "&", "|", "<", ">", "(", ")", "{", "}", "*", "?", "[",
+ALPHABET = [" ", "\t", "\n", "\r", "'", '"', "$", "\\", "`", ";", "&", "|", "<", ">", "(", ")", "{", "}", "*", "?", "[",
             "#", "~", "=", "{{", "é", "a"]
 
 PAYLOADS = [
@@ -323,7 +323,7 @@ def run(report):
     report.coverage.update({
         "evaluations": len(vals) + stats["dash_model_compared"] + nchan,
         "distinct_nontrivial": len(distinct),
-        "rule": "all strings of length <=%d over a 26-symbol metacharacter alphabet (exhaustive) + injection payloads + random longer strings, each delivered through quote(), exported $param, \"$1\"/\"$@\"/$0 under positional-arguments (linewise and shebang), variadic words, and a NAME=VALUE override (quote and export); real /bin/sh; plus random parameter lists (singular, default, +, *, exported or not) x random words x {positional-arguments, set export, shebang, a .env file and a module variable defining the same names, unexport}: argv and environment of the child vs the statement and vs Just.Channels; distinct = distinct values" % (2 if tier == "quick" else 3),
+        "rule": "all strings of length <=%d over a 27-symbol metacharacter alphabet (carriage return included) (exhaustive) + injection payloads + random longer strings, each delivered through quote(), exported $param, \"$1\"/\"$@\"/$0 under positional-arguments (linewise and shebang), variadic words, and a NAME=VALUE override (quote and export); real /bin/sh; plus random parameter lists (singular, default, +, *, exported or not) x random words x {positional-arguments, set export, shebang, a .env file and a module variable defining the same names, unexport}: argv and environment of the child vs the statement and vs Just.Channels; distinct = distinct values" % (2 if tier == "quick" else 3),
         "samples": samples,
         "exhaustive": True,
         "traces_validated_against_impl": len(vals),
